@@ -271,6 +271,7 @@ def rule_N1(ctx):
     sites = Sites(prog)
     specs = {
         0: "def s(self, child_log_r_values):\n    return self.log_p\n",
+        1: "def s(self, child_log_r_values):\n    return self.log_p + compute_log_S(child_log_r_values)\n",
         2: "def s(self, child_log_r_values):\n    return self.log_p + compute_log_S(child_log_r_values)\n",
         3: "def s(self, child_log_r_values):\n    return self.log_p + compute_log_S(child_log_r_values)\n",
     }
@@ -280,7 +281,10 @@ def rule_N1(ctx):
         alias = None
         for ev in ex.events:
             tgt = val = None
-            if ev.name == "np.copyto" and len(ev.args) >= 2:
+            if ev.name == "store_content" and len(ev.args) == 2:
+                # engine-canonicalised in-place idiom (np.copyto, ufunc(out=), dst[:] = v, dst[...] = v)
+                tgt, val = vkey(ev.args[0]), _content_of(content, ev.args[1])
+            elif ev.name == "np.copyto" and len(ev.args) >= 2:
                 tgt, val = vkey(ev.args[0]), ev.args[1]
             elif ev.name in ("np.add", "np.subtract", "np.multiply") and "out" in ev.kwargs and len(ev.args) == 2:
                 tgt = vkey(ev.kwargs["out"])
@@ -1291,6 +1295,11 @@ def run(ctx):
     ctx.assume("numpy/scipy semantics (np.convolve, scipy.signal.fftconvolve, ufunc.accumulate, np.max keepdims, np.copyto/np.add out=) are the documented ones")
     ctx.assume("rustworkx.dfs_search calls finish_vertex in post-order; all_simple_paths(g, a, b) lists paths a -> b")
     ctx.assume("equality of the recursion with the brute-force grid sum, and accuracy near the 1e-100 / FFT floors, are NOT decided here")
+    from ._treespec import rule_TS
+
+    # first the recursion, the node update, the refresh walks and the queries they rest on against the frozen
+    # reference semantics: a semantic change is reported even where a shape rule below would give up
+    rule_TS(ctx, owners=["tree_node.TreeNode", "tree.Tree", "tree.utils", "utils.math"])
     rule_N1(ctx)
     rule_N2(ctx)
     rule_N3(ctx)
@@ -1303,10 +1312,7 @@ def run(ctx):
     from . import C14
 
     from ..formula import imported
-    from ._treespec import rule_TS
 
-    # the node update, the refresh walks and the queries they rest on, against the reference semantics
-    rule_TS(ctx, owners=["tree_node.TreeNode", "visitors.PostOrderNodeUpdater", "tree.Tree"])
     ctx._own_rules = set(ctx.rule_min)
     imported(ctx, C14.rule_K2)
     imported(ctx, C14.rule_K3)
